@@ -4,7 +4,7 @@ from __future__ import annotations
 import ast
 
 from .. import astq, codec, reference, smf, wire
-from ..absint import AbsRaise, ADict, AList, AObj, Opaque, SeqVar, log_event
+from ..absint import AbsRaise, ADict, AList, AObj, Opaque, SeqVar, log_event, assuming, only_length_splits
 from ..bits import AV, Sym
 from ..domains import check_domain, looks_undecided, semantic_domain
 from ..fold import FuncRef, UNKNOWN
@@ -211,60 +211,62 @@ def r09_1(ctx):
         we = ctx.where(encf) if encf is not None else w
         cons = f'{encf.qname if encf else fn.qname}'
         inst = f'bytes({label})'
-        if len(outs) != 1 or outs[0].kind != 'return' or not isinstance(outs[0].value, AList):
+        if not only_length_splits(outs) or not all(isinstance(o_.value, AList) for o_ in outs):
             ctx.fail('R09.1', inst, we, f'encoding does not complete on one path: {outs}', construct=cons + '::outcomes')
             continue
-        items = outs[0].value.items
-        tb = reference.META_SPECS[type_][0]
-        ok = len(items) >= 3 and items[0] == 0xff and items[1] == tb and isinstance(items[2], VLQ)
-        ctx.require(ok, 'R09.4', f'{inst}.prefix', w, f'encoding starts {smf.describe(items[:3])}, expected FF {tb:02X} <length>',
-                    construct=f'{fn.qname}::prefix')
-        if not ok:
-            continue
-        payload = items[3:]
-        ctx.require(wire.value_equal(items[2].value, wire.size_of(payload)), 'R09.4', f'{inst}.length', w,
-                    f'length prefix is VLQ({items[2].value!r}) but {wire.size_of(payload)!r} payload bytes follow',
-                    construct=f'{fn.qname}::length')
-        # item ranges and overlaps
-        bad_overlap = False
-        for i, it in enumerate(payload):
-            if isinstance(it, AV):
-                if it.is_top:
-                    is_ov = 'overlap' in (it.top or '')
-                    bad_overlap = bad_overlap or is_ov
-                    key = 'overlap' if is_ov else 'layout'
-                    ctx.fail('R09.1', f'{inst}.byte{i}', we,
-                             f'payload byte {i}: {it.top} - for the checked attribute domain the fields do not fit into one byte',
-                             construct=cons + f'::byte{i}::{key}')
-                    continue
-                lo, hi = it.interval()
-                ctx.require(0 <= lo and hi <= 255, 'R09.1', f'{inst}.byte{i}.range', we,
-                            f'payload item {i} ranges over [{lo},{hi}] for checked values: not a byte', construct=cons + f'::byte{i}::range')
-            elif isinstance(it, int):
-                ctx.require(0 <= it <= 255, 'R09.1', f'{inst}.byte{i}.range', we, f'payload item {i} is {it}', construct=cons + f'::byte{i}::range')
-            elif isinstance(it, SeqVar):
-                ctx.require(it.sym.umax <= 255, 'R09.1', f'{inst}.byte{i}.range', we, f'payload run {it!r} is not bytes',
-                            construct=cons + f'::byte{i}::range')
-        if type_ == 'smpte_offset' or bad_overlap:
-            continue
-        ref = smf.ref_meta_payload(type_, attrs)
-        ctx.require(wire.items_equal(payload, ref), 'R09.1', f'{inst}.layout', we,
-                    f'payload is {smf.describe(payload)}, SMF 1.0 layout is {smf.describe(ref)}', construct=cons + '::layout')
-        # decode back through the file reader path
-        holder = {}
+        for o_e in outs:
+          with assuming(o_e):
+            items = o_e.value.items
+            tb = reference.META_SPECS[type_][0]
+            ok = len(items) >= 3 and items[0] == 0xff and items[1] == tb and (isinstance(items[2], VLQ) or wire.item_equal(VLQ(items[2]), items[2]))
+            ctx.require(ok, 'R09.4', f'{inst}.prefix', w, f'encoding starts {smf.describe(items[:3])}, expected FF {tb:02X} <length>',
+                        construct=f'{fn.qname}::prefix')
+            if not ok:
+                continue
+            payload = items[3:]
+            ctx.require(wire.item_equal(items[2], VLQ(wire.size_of(payload))), 'R09.4', f'{inst}.length', w,
+                        f'length prefix is {items[2]!r} but {wire.size_of(payload)!r} payload bytes follow',
+                        construct=f'{fn.qname}::length')
+            # item ranges and overlaps
+            bad_overlap = False
+            for i, it in enumerate(payload):
+                if isinstance(it, AV):
+                    if it.is_top:
+                        is_ov = 'overlap' in (it.top or '')
+                        bad_overlap = bad_overlap or is_ov
+                        key = 'overlap' if is_ov else 'layout'
+                        ctx.fail('R09.1', f'{inst}.byte{i}', we,
+                                 f'payload byte {i}: {it.top} - for the checked attribute domain the fields do not fit into one byte',
+                                 construct=cons + f'::byte{i}::{key}')
+                        continue
+                    lo, hi = it.interval()
+                    ctx.require(0 <= lo and hi <= 255, 'R09.1', f'{inst}.byte{i}.range', we,
+                                f'payload item {i} ranges over [{lo},{hi}] for checked values: not a byte', construct=cons + f'::byte{i}::range')
+                elif isinstance(it, int):
+                    ctx.require(0 <= it <= 255, 'R09.1', f'{inst}.byte{i}.range', we, f'payload item {i} is {it}', construct=cons + f'::byte{i}::range')
+                elif isinstance(it, SeqVar):
+                    ctx.require(it.sym.umax <= 255, 'R09.1', f'{inst}.byte{i}.range', we, f'payload run {it!r} is not bytes',
+                                construct=cons + f'::byte{i}::range')
+            if type_ == 'smpte_offset' or bad_overlap:
+                continue
+            ref = smf.ref_meta_payload(type_, attrs)
+            ctx.require(wire.items_equal(payload, ref), 'R09.1', f'{inst}.layout', we,
+                        f'payload is {smf.describe(payload)}, SMF 1.0 layout is {smf.describe(ref)}', construct=cons + '::layout')
+            # decode back through the file reader path
+            holder = {}
 
-        def dthunk():
-            return ai.call_function(bm, [tb, AList(list(payload), 'list'), smf.tsym('t9')], {})
-        douts = ai.explore(dthunk)
-        o2, decf = ctx.p.lookup_method(c, 'decode')
-        wd = ctx.where(decf) if decf is not None else ctx.where(bm)
-        ev = smf.Ev('meta', type_, attrs, smf.tsym('t9'))
-        ok = len(douts) == 1 and douts[0].kind == 'return'
-        why = f'decoding the encoding: {douts}'
-        if ok:
-            ok, why = smf.same_message(ev, douts[0].value, ctx)
-        ctx.require(ok, 'R09.1', f'decode({label})', wd, f'decode(encode(m)) != m: {why}',
-                    construct=f'{decf.qname if decf else bm.qname}::identity')
+            def dthunk():
+                return ai.call_function(bm, [tb, AList(list(payload), 'list'), smf.tsym('t9')], {})
+            douts = ai.explore(dthunk)
+            o2, decf = ctx.p.lookup_method(c, 'decode')
+            wd = ctx.where(decf) if decf is not None else ctx.where(bm)
+            ev = smf.Ev('meta', type_, attrs, smf.tsym('t9'))
+            ok = len(douts) == 1 and douts[0].kind == 'return'
+            why = f'decoding the encoding: {douts}'
+            if ok:
+                ok, why = smf.same_message(ev, douts[0].value, ctx)
+            ctx.require(ok, 'R09.1', f'decode({label})', wd, f'decode(encode(m)) != m: {why}',
+                        construct=f'{decf.qname if decf else bm.qname}::identity')
     ctx.floor('R09.1', n, 18)
     # smpte_offset: layout and identity on the part of the domain that fits (hours 0..31); overlap on the full checked domain
     for rate in (24, 25, 29.97, 30):
@@ -320,7 +322,7 @@ def r09_tables(ctx):
         fn, outs = _meta_bytes(ctx, ai, 'key_signature', {'key': key})
         want = [0xff, 0x59, None, sf & 0xff, mi]
         ok = len(outs) == 1 and outs[0].kind == 'return' and isinstance(outs[0].value, AList) and len(outs[0].value.items) == 5 \
-            and outs[0].value.items[3:] == want[3:] and isinstance(outs[0].value.items[2], VLQ) and outs[0].value.items[2].value == 2
+            and outs[0].value.items[3:] == want[3:] and wire.item_equal(outs[0].value.items[2], VLQ(2))
         ctx.require(ok, 'R09.1', f'bytes(key_signature {key})', ctx.where(encf), f'encodes to {outs}, expected FF 59 02 {sf & 0xff:02X} {mi:02X}',
                     construct=f'{encf.qname}::table')
         douts = ai.explore(lambda: ai.call_function(bm, [0x59, AList([sf & 0xff, mi], 'list'), 7], {}))
@@ -557,10 +559,16 @@ def r09_6(ctx):
     ctx.require(mx == reference.MAX_MESSAGE_LENGTH, 'R09.6', 'MAX_MESSAGE_LENGTH', w, f'limit is {mx}, documented 1000000',
                 construct=f'{rb.module.relpath}::MAX_MESSAGE_LENGTH')
     try:
-        r = check_domain(ctx.p, ctx.f, rb, rb.params()[1], {})
+        # (tests on the file - which kind it is, whether it ran out - go either way; running out of bytes is not a refusal
+        # of the size)
+        r = check_domain(ctx.p, ctx.f, rb, rb.params()[1], {}, free_guards=True)
         ctx.paths += r.paths
-        ok = r.accepted == IntSet.range(float('-inf'), reference.MAX_MESSAGE_LENGTH)
-        why = f'read_bytes accepts sizes {r.accepted}'
+        refused = IntSet.empty()
+        for exc_, set_ in r.rejected.items():
+            if exc_ != 'EOFError':
+                refused = refused.union(set_)
+        ok = refused == IntSet.range(reference.MAX_MESSAGE_LENGTH + 1, float('inf'))
+        why = f'read_bytes refuses sizes {refused}'
     except Undecidable as e:
         ok, why = False, str(e)
     ctx.require(ok, 'R09.6', 'read_bytes.limit', w, why + ' (every size up to 1 000 000 must be readable)', construct=f'{rb.qname}::limit')
